@@ -1,7 +1,35 @@
-//! MomentumIndex — reference model (TODO).
+//! Momentum Index. Doc: 2 values — `slow momentum` value (`period1`, "Slow momentum period"),
+//! `fast momentum` value (`period2`, "Fast momentum period"); momentum(n) = source - source n steps ago.
+//! 1 signal — both momentums positive: full buy; both negative: full sell; otherwise no signal.
 use super::*;
 
-/// returns None until the reference is written
-pub fn make(_cfg: &Cfg, _c0: &RC) -> Option<Box<dyn IndRef>> {
-	None
+#[derive(Clone)]
+pub struct MomentumIndex {
+	src: String,
+	slow: rm::Win,
+	fast: rm::Win,
+}
+
+pub fn make(cfg: &Cfg, c0: &RC) -> Option<Box<dyn IndRef>> {
+	let src = cfg.src("source");
+	let s0 = source(c0, &src);
+	Some(Box::new(MomentumIndex {
+		slow: rm::Win::new_q(rm::WinKind::Momentum, cfg.int("period1"), s0),
+		fast: rm::Win::new_q(rm::WinKind::Momentum, cfg.int("period2"), s0),
+		src,
+	}))
+}
+
+impl IndRef for MomentumIndex {
+	fn values(&mut self, c: &RC) -> Vec<Q> {
+		let s = source(c, &self.src);
+		vec![self.slow.step(s), self.fast.step(s)]
+	}
+	fn signals(&mut self, _c: &RC, own: &[f64]) -> Vec<Sig> {
+		let (slow, fast) = (own[0], own[1]);
+		let buy = slow > 0.0 && fast > 0.0;
+		let sell = slow < 0.0 && fast < 0.0;
+		vec![sig_sign(buy as i32 - sell as i32)]
+	}
+	indref!(MomentumIndex);
 }
